@@ -1,7 +1,8 @@
 (* CorrC11.v -- correspondence entry point for C11 (harness/src/bin/c11.rs).
 
    case = [op; ety; sz; A; B; wi; wv]     (sz = size_of::<T>() measured by the harness; ety 0 u32,
-                                           1 Tr, 2 Tz: zero-sized identities are printed as 0)
+                                           1 Tr, 2 Tz: zero-sized identities are printed as 0,
+                                           3 Tb: a one-byte element with a destructor, identities mod 256)
    op 0/1/2  flatten owned / & / &mut of an M-array of N-arrays, (N, M) = (A, B); leaf (i, j) has id 1000*i + j
    op 3/4/5  unflatten owned / & / &mut of an NM-array into N-arrays, (NM, N) = (A, B); element k has id 7*k + 3
    OBS owned flatten  : 0, length, ids in order, number of drop/clone events | 2 (size-test panic)
@@ -16,12 +17,12 @@ Local Open Scope Z_scope.
 Definition enc_res (r : res Z) : Z :=
   match r with Ret x => x | Panicked => -6 | UB => -7 end.
 
-Definition idz (sz : nat) (x : Z) : Z := if (sz =? 0)%nat then 0 else x.
+Definition idz (sz : nat) (ety : Z) (x : Z) : Z := if (sz =? 0)%nat then 0 else if ety =? 3 then x mod 256 else x.
 
-Definition nested_val (sz N M : nat) : list (list Z) :=
-  map (fun i => map (fun j => idz sz (1000 * Z.of_nat i + Z.of_nat j)) (seq 0 N)) (seq 0 M).
-Definition flat_val (sz NM : nat) : list Z :=
-  map (fun k => idz sz (7 * Z.of_nat k + 3)) (seq 0 NM).
+Definition nested_val (sz : nat) (ety : Z) (N M : nat) : list (list Z) :=
+  map (fun i => map (fun j => idz sz ety (1000 * Z.of_nat i + Z.of_nat j)) (seq 0 N)) (seq 0 M).
+Definition flat_val (sz : nat) (ety : Z) (NM : nat) : list Z :=
+  map (fun k => idz sz ety (7 * Z.of_nat k + 3)) (seq 0 NM).
 
 (* the source object sits at element offset 2 of its block, between foreign cells *)
 Definition base : ptr := mkptr 0 2.
@@ -34,29 +35,29 @@ Definition enc_rows (rows : list (list (res Z))) : list Z := flat_map (map enc_r
 
 Definition run_c11 (case : list Z) : list Z :=
   match case with
-  | op :: _ :: sz :: a :: b :: wi :: wv :: _ =>
+  | op :: ety :: sz :: a :: b :: wi :: wv :: _ =>
     let sz := znat sz in let A := znat a in let B := znat b in let wi := znat wi in
     if op =? 0 then
-      match flatten_owned sz A B (nested_val sz A B) with
+      match flatten_owned sz A B (nested_val sz ety A B) with
       | Ret f => 0 :: zlen f :: f ++ [0]
       | Panicked => [2]
       | UB => [7]
       end
     else if op =? 3 then
-      match unflatten_owned sz A B (flat_val sz A) with
+      match unflatten_owned sz A B (flat_val sz ety A) with
       | Ret rows => 0 :: zlen rows :: flat_map (fun r => zlen r :: r) rows ++ [0]
       | Panicked => [2]
       | UB => [7]
       end
     else if (op =? 1) || (op =? 2) then
       let N := A in let M := B in
-      let m := mem_of (cells_of_nested (nested_val sz N M)) in
+      let m := mem_of (cells_of_nested (nested_val sz ety N M)) in
       let src := mknref base N M in
       let r := if op =? 1 then flatten_ref N M base else flatten_mut N M base in
       0 :: rel_bytes sz (aptr r) base :: Z.of_nat (aref_extent r * sz) :: Z.of_nat (alen r)
         :: map enc_res (view_read m (aref_slice r)) ++
       (if op =? 2 then
-         match (if (wi <? alen r)%nat then view_set m (aref_slice r) wi (idz sz wv) else Ret m) with
+         match (if (wi <? alen r)%nat then view_set m (aref_slice r) wi (idz sz ety wv) else Ret m) with
          | Ret m' => enc_rows (nested_read m' src)
          | Panicked => [-6]
          | UB => [-7]
@@ -64,12 +65,12 @@ Definition run_c11 (case : list Z) : list Z :=
        else [])
     else
       let NM := A in let N := B in
-      let m := mem_of (flat_val sz NM) in
+      let m := mem_of (flat_val sz ety NM) in
       let r := if op =? 4 then unflatten_ref NM N base else unflatten_mut NM N base in
       0 :: rel_bytes sz (nptr r) base :: Z.of_nat (nref_extent r * sz) :: Z.of_nat (nouter r)
         :: Z.of_nat (ninner r) :: enc_rows (nested_read m r) ++
       (if op =? 5 then
-         match (if (wi <? nref_extent r)%nat then nested_set m r (wi / N)%nat (wi mod N)%nat (idz sz wv) else Ret m) with
+         match (if (wi <? nref_extent r)%nat then nested_set m r (wi / N)%nat (wi mod N)%nat (idz sz ety wv) else Ret m) with
          | Ret m' => map enc_res (view_read m' (as_slice NM base))
          | Panicked => [-6]
          | UB => [-7]
